@@ -394,8 +394,10 @@ func xcircle(seed uint64) string {
 		}
 		return geojson.NewFeature(geojson.NewPoint(p), "")
 	}
+	var made []geojson.Object
 	for i := 0; i < 8; i++ {
 		x := mk()
+		made = append(made, x)
 		if c.Within(x) != x.Contains(c) || x.Within(c) != c.Contains(x) {
 			return fmt.Sprintf("FAIL within != contains swapped for circle and %s", kindName(x))
 		}
@@ -404,6 +406,22 @@ func xcircle(seed uint64) string {
 			if c.Intersects(x) != x.Intersects(c) {
 				return fmt.Sprintf("FAIL intersects not symmetric for circle and %s %s", kindName(x), x.JSON())
 			}
+		}
+	}
+	// a collection composes its children for a circle receiver as well: Intersects = some child, Contains = every child
+	for _, k := range []int{1, 2, 3} {
+		children := made[:k*2]
+		coll := geojson.NewGeometryCollection(children)
+		anyI, allC := false, true
+		for _, ch := range children {
+			anyI = anyI || c.Intersects(ch)
+			allC = allC && c.Contains(ch)
+		}
+		if got := c.Intersects(coll); got != anyI {
+			return fmt.Sprintf("FAIL circle.Intersects(collection)=%v but some-child=%v (%d children)", got, anyI, len(children))
+		}
+		if got := c.Contains(coll); got != allC {
+			return fmt.Sprintf("FAIL circle.Contains(collection)=%v but every-child=%v (%d children)", got, allC, len(children))
 		}
 	}
 	// wrappers are transparent for a circle too: a point just inside the rim (in the sliver between
